@@ -12,8 +12,9 @@ class SchedAbort(BaseException):
 
 
 class Scheduler:
-    def __init__(self, watched):
+    def __init__(self, watched, opcodes=False):
         self.watched = set(watched)
+        self.opcodes = opcodes          # yield at every bytecode instruction of the watched files instead of every source line (read-modify-write inside one line)
 
     # ---- called from logical threads
     def _yield(self, tid):
@@ -36,18 +37,20 @@ class Scheduler:
 
     def _tracer(self, tid):
         def local(frame, event, arg):
-            if event == "line":
+            if event == ("opcode" if self.opcodes else "line"):
                 self._yield(tid)
             return local
 
         def glob(frame, event, arg):
             if frame.f_code.co_filename in self.watched:
+                if self.opcodes:
+                    frame.f_trace_opcodes = True
                 return local
             return None
         return glob
 
     # ---- controller
-    def run(self, thunks, choose, max_steps=5000):
+    def run(self, thunks, choose, max_steps=50000):
         n = len(thunks)
         self.go = [threading.Event() for _ in range(n)]
         self.ctl = threading.Event()
